@@ -16,10 +16,10 @@ PYTHONPATH=$WT/src /venv/bin/python -m pytest -q -p no:cacheprovider -n 4 tests 
 echo "tests_with_change: $(tail -1 $D/tests_with.log)" >> $OUT
 fi
 git checkout -q -- .
-[ "$PYX" -gt 0 ] && /venv/bin/python setup.py -q build_ext --inplace > /dev/null 2>&1
+[ "$PYX" -gt 0 ] && /venv/bin/python setup.py -q build_ext --inplace --force > /dev/null 2>&1
 PYTHONPATH=$WT/src /venv/bin/python $D/demo.py > $D/demo_without.log 2>&1; echo "demo_without_change_exit=$?" >> $OUT
 git apply $D/patch.diff
-[ "$PYX" -gt 0 ] && /venv/bin/python setup.py -q build_ext --inplace > /dev/null 2>&1
+[ "$PYX" -gt 0 ] && /venv/bin/python setup.py -q build_ext --inplace --force > /dev/null 2>&1
 cd /verif
 for C in $ID "$@"; do
   VERIF_REPO=$WT ./check $C --no-evidence --jobs 8 > $D/check_$C.log 2>&1; rc=$?
